@@ -201,7 +201,7 @@ func runC10(c *fw.Ctx) {
 	if err := symref.SelfTest(); err != nil {
 		fw.Bug("symref self-test: %v", err)
 	}
-	n := c.Pick(300, 40000)
+	n := c.Pick(300, 120000)
 	c.Cases(n, func(i int) string { return fmt.Sprintf("history|suite=%v i=%d", symref.AllSuites[i%4], i) }, func(i int, k *fw.K) {
 		k.Nontrivial("")
 		c10History(c, k, i)
